@@ -14,7 +14,7 @@ import json
 
 import numpy as np
 
-from harness import engine
+from harness import engine, memo
 
 PROP = "C04"
 LEVEL = "exploration"
@@ -111,6 +111,7 @@ def run(rep: engine.Report, tier: str, seed: int):
     results = engine.parallel_replay("harness.props.c04", "replay", sel)
     engine.collect(rep, sel, results, key=lambda c: c["cfg"])
     rep.traces_validated = rep.evaluations
+    memo.run_family(rep, ["zncc_align", "pcc_align", "fsc_align"])
     rep.samples = sel[:3]
     rep.rule = (
         "TLC enumerates 6 limit vectors (1..3 px, anisotropic, off the 1/20-px grid) x 20 displacement vectors over the closed "
